@@ -130,9 +130,13 @@ type c15World struct {
 	recreated bool
 	// onlyPlacementDiffers (set where two documents are found to differ): both hold the same
 	// characters, nodes and values, only their order / position differs - the symptom of
-	// F-UNDO-AFTER-PURGE (a re-created node is PLACED by guessing). Content that is
-	// missing, doubled or different on one side is not that finding.
+	// F-UNDO-AFTER-PURGE (a re-created node is PLACED by guessing) - or what differs was
+	// written by clients that never undid anything (see foreignOnlyDifference). Content of
+	// the UNDOING client that is missing, doubled or different on one side is not that
+	// finding.
 	onlyPlacementDiffers bool
+	// undoers: actors that made an undo/redo call
+	undoers map[string]bool
 	// editedAfterRecreation: an edit, undo or redo was made after an undo/redo that carries a
 	// RESTORE (which some replica, possibly much later, applies by re-creating purged nodes). Ranges are resolved between two positions; where the replicas order the
 	// content differently the same range covers different nodes, and the difference is no
@@ -270,6 +274,86 @@ func (w *c15World) viol(kind, detail string) {
 		}
 	}
 	w.res.Violate(kind, fmt.Sprintf("%s\n(family %s, gc=%v, histories cleared=%v) history: %s", detail, w.rp.Family, w.rp.GC, w.rp.Clear, strings.Join(prog, "; ")), ident, rp)
+}
+
+// foreignOnlyDifference: the two documents hold different text / tree content, and every
+// character, tag or attribute set that one side has and the other lacks was AUTHORED by a
+// client that made no undo/redo call. That is the third face of F-UNDO-AFTER-PURGE: a
+// replica that re-creates a purged element from the undoer's restore spans gets the
+// undoer's nodes only; what another client had inserted into that element before it was
+// removed is gone there, while a replica that still holds the tombstones revives it too.
+func foreignOnlyDifference(a, b *document.Document, undoers map[string]bool) bool {
+	ta, tb := authoredTokens(a), authoredTokens(b)
+	differs := false
+	for tok, n := range ta {
+		if tb[tok] != n {
+			differs = true
+			if undoers[tok[strings.LastIndex(tok, "@")+1:]] {
+				return false
+			}
+		}
+	}
+	for tok, n := range tb {
+		if ta[tok] != n {
+			differs = true
+			if undoers[tok[strings.LastIndex(tok, "@")+1:]] {
+				return false
+			}
+		}
+	}
+	return differs
+}
+
+// authoredTokens: every live character / tree node with its attributes and "@<actor that
+// created it>", counted.
+func authoredTokens(d *document.Document) map[string]int {
+	out := map[string]int{}
+	var walk func(e crdt.Element)
+	walk = func(e crdt.Element) {
+		switch v := e.(type) {
+		case *crdt.Object:
+			for _, m := range v.Members() {
+				walk(m)
+			}
+		case *crdt.Array:
+			for _, m := range v.Elements() {
+				walk(m)
+			}
+		case *crdt.Text:
+			for _, n := range v.Nodes() {
+				if n.RemovedAt() != nil {
+					continue
+				}
+				a := ""
+				if n.Value().Attrs() != nil {
+					a = attrString(n.Value().Attrs().Elements())
+				}
+				for _, r := range n.Value().Value() {
+					out["t "+string(r)+a+"@"+n.ID().CreatedAt().ActorID().String()]++
+				}
+			}
+		case *crdt.Tree:
+			for _, n := range v.Nodes() {
+				if n.IsRemoved() {
+					continue
+				}
+				who := "@" + n.ID().CreatedAt.ActorID().String()
+				if n.IsText() {
+					for _, r := range n.Value {
+						out["x "+string(r)+who]++
+					}
+					continue
+				}
+				a := ""
+				if n.Attrs != nil {
+					a = attrString(n.Attrs.Elements())
+				}
+				out["e "+n.Type()+a+who]++
+			}
+		}
+	}
+	walk(d.RootObject())
+	return out
 }
 
 // contentBag renders a document with every Text as the sorted bag of its characters (with
@@ -555,6 +639,10 @@ func (w *c15World) do(st c15Step) bool {
 		}
 		w.steps = append(w.steps, st)
 		w.undone++
+		if w.undoers == nil {
+			w.undoers = map[string]bool{}
+		}
+		w.undoers[d.ActorID().String()] = true
 		w.res.AddStat("undo_redo_calls", 1)
 		if w.purged {
 			w.undoAfterPurge = true
@@ -767,7 +855,7 @@ func (w *c15World) finish() {
 	ref := w.docs["A"].Marshal()
 	for _, n := range w.names[1:] {
 		if m := w.docs[n].Marshal(); m != ref {
-			w.onlyPlacementDiffers = contentBag(w.docs["A"]) == contentBag(w.docs[n])
+			w.onlyPlacementDiffers = contentBag(w.docs["A"]) == contentBag(w.docs[n]) || foreignOnlyDifference(w.docs["A"], w.docs[n], w.undoers)
 			w.viol("replicas-diverged", fmt.Sprintf("after the closing sync rounds%s:\n A shows %s\n %s shows %s", map[bool]string{true: " and collection", false: ""}[w.rp.GC], ref, n, m))
 			return
 		}
@@ -802,7 +890,7 @@ func (w *c15World) finish() {
 		return
 	}
 	if a, b := canonDoc(w.docs["A"]), canonDoc(fresh); a != b {
-		w.onlyPlacementDiffers = contentBag(w.docs["A"]) == contentBag(fresh)
+		w.onlyPlacementDiffers = contentBag(w.docs["A"]) == contentBag(fresh) || foreignOnlyDifference(w.docs["A"], fresh, w.undoers)
 		w.viol("late-replica-differs", fmt.Sprintf("the replicas show %s\na replica built from the log alone shows %s", a, b))
 	}
 }
